@@ -210,8 +210,29 @@ def global_functions():
                     yield cfg.renumber([g] + prefix + [comp, ("use", 0)])
 
 
+def jump_through_functions():
+    """A break / continue that leaves a with / try part on the way to its loop: the loop body is
+    [optional v=] + one with / try statement whose body, handler, else or finally block is
+    [optional call, optional v=, jump] + [optional v=]; optional assignment before the loop, use after it."""
+    for kind in ("while", "for", "whiletrue"):
+        for jump in ("break", "continue"):
+            if kind == "whiletrue" and jump == "continue":
+                continue
+            for pre_b in ([], [("assign", 0)], [("call",)], [("call",), ("assign", 0)]):
+                B = pre_b + [(jump,)]
+                wrappers = [("with", "S", B), ("with", "N", B), ("try", B, [[("pass",)]], None, None),
+                            ("try", [("call",)], [B], None, None), ("try", B, [], None, [("pass",)]),
+                            ("try", [("call",)], [], None, B), ("try", [("call",)], [[("pass",)]], B, None)]
+                for w in wrappers:
+                    for pre, post, outer in itertools.product((False, True), repeat=3):
+                        body = ([("assign", 0)] if pre else []) + [w] + ([("assign", 0)] if post else [])
+                        loop = (kind, body) if kind == "whiletrue" else (kind, body, None)
+                        yield cfg.renumber(([("assign", 0)] if outer else []) + [loop, ("use", 0)])
+
+
 def exhaustive_functions():
     yield from nested_loop_functions()
+    yield from jump_through_functions()
     yield from nonlocal_functions()
     yield from global_functions()
     yield from loop_in_slot_functions()
@@ -579,6 +600,7 @@ def run_shard(spec):
                                           "a loop with a body of <=2 atoms in every block position of every compound statement",
                                           "nonlocal: v=; one compound or if/else over {v=, nested setter through nonlocal, use, call, return}; use",
                                           "global: `global v` (module-level binding present / absent); [v= | use]; one compound (blocks <=2 atoms, two-block forms <=1) ; use; nested readers / setters of the global",
+                                          "a break / continue leaving a with / try part (body, handler, else, finally) directly inside its loop, with assignments before / inside / after",
                                           "loops nested 2 and 3 deep (while/for at each level) with `if c: [v=;] break/continue` after the inner loop at each level"]
         return col.result()
 
